@@ -477,8 +477,27 @@ def freeze(r: Rat) -> Rat:
     return r.subs({a: Rat.atom(("sg", a)) for a in r.atoms() if not (isinstance(a, tuple) and a and a[0] == "sg") and a != I})
 
 
+def _isclose(it, a, k):
+    x, y = a[0], a[1]
+    if all(isinstance(v, (int, Fraction)) for v in (x, y)):
+        rel = k.get("rel_tol", Fraction(1, 10**9))
+        ab = k.get("abs_tol", 0)
+        if isinstance(rel, Rat):
+            rel = rel.const_value()
+        if isinstance(ab, Rat):
+            ab = ab.const_value()
+        return abs(x - y) <= max(rel * max(abs(x), abs(y)), ab)
+    if is_num(x) and is_num(y):
+        from .absint import rat_compare
+
+        return rat_compare("eq", x, y)
+    return NotImplemented
+
+
 def install(interp):
     H = interp.ext_handlers
+    H["math.isclose"] = _isclose
+    H["np.isclose"] = _isclose
     for n in ("exp", "sin", "cos", "tanh", "sinh", "cosh", "sqrt", "abs", "square", "sign", "floor", "ceil", "round", "expm1", "log", "log1p", "arctan", "tan", "rint", "arcsin", "arccos", "log10", "log2"):
         H[f"np.{n}"] = _unary(n)
         H[f"math.{n}"] = _math_fn(n)
